@@ -145,6 +145,13 @@ def ob_merge_ideal(bits, timeout_ms, only=None):
     for i, (kind, cond) in enumerate(post.oblig):
         goals.append((f"no wrap-around / division by zero [{i}] {kind}", z3.Not(cond)))
     insts = {}
+    if only == "WITNESS":
+        # reachability twin: the general (log-domain) region and the upper-bracket choice are reachable under the assumptions
+        ax, cnt = instantiate(assume + [general], base)
+        r1, _ = common.z3check_race(assume + ax + [general, val(rI - 1) <= v, v < val(rI), rI > nrI + 1], timeout_ms, stats, label=f"witness: _merge_log{bits} rounds up in the log domain")
+        r2, _ = common.z3check_race(assume + ax + [v >= z3.ToReal(mI), caI < umax, cbI < umax], timeout_ms, stats, label=f"witness: _merge_log{bits} saturates from two unsaturated counters")
+        ok = r1 == "sat" and r2 == "sat"
+        return {"status": "witness" if ok else "nowitness", "stats": stats.as_dict(), "note": None if ok else f"{r1},{r2}"}
     if isinstance(only, str):
         goals = [g for g in goals if only in g[0]]
         if not goals:
